@@ -5,11 +5,12 @@
        (C15_no_control_characters / C15_clean_trace; the invariant CleanState — every string of the state that can
        reach an output is clean — is spelled out by C15_CleanState_spec);
      * what the POST handler commits is clean whatever JSON string was posted (C15_post_handler_clean), so EMessage
-       entries meet the hypothesis (C15_posted_entry_clean); reload (save+load) and the expiry sweep keep it.
+       entries meet the hypothesis (C15_posted_entry_clean); so is the quit message the DELETE handler commits
+       (C15_delete_handler_clean / C15_deleted_entry_clean; deletesession.go modelled in Api/Post.v, tied by the API
+       driver's D op); reload (save+load) and the expiry sweep keep it.
    Hypotheses that are not discharged inside Coq (stated in DESIGN.md, checked on the implementation by the line monitor):
-   quit messages of DELETE requests are cut by deletesession.go the same way (no Coq model of that handler), ban reasons
-   of a posted configuration (network password holder only) are clean, and two texts the model masks as constants
-   (captcha URL, server creation date).
+   ban reasons of a posted configuration (network password holder only) are clean, and two texts the model masks as
+   constants (captcha URL, server creation date).
    The head ":prefix command" of every line survives the 510-byte cut (C15_command_intact): cmd_user.go keeps at most
    32 bytes of the user name (repair of finding c15:nocommand), nicknames are bounded by their syntax, the host part by
    64-bit session ids; hypotheses: network name <= 255 bytes, services lines carry prefixes / NICK / SERVER parameters
@@ -73,6 +74,16 @@ Theorem C15_posted_entry_clean : forall id un session cmid ra d,
   clean_entry (RV.Irc.Apply.EMessage id un session cmid ra (cut_line d)).
 Proof. exact clean_posted_entry. Qed.
 Print Assumptions C15_posted_entry_clean.
+
+Theorem C15_delete_handler_clean : forall json_quit st sid body pe,
+  delete_handler json_quit st sid body = PPropose pe -> clean (e_data pe).
+Proof. exact delete_handler_clean. Qed.
+Print Assumptions C15_delete_handler_clean.
+
+Theorem C15_deleted_entry_clean : forall id un session d,
+  clean_entry (RV.Irc.Apply.EDelete id un session (cut_line d)).
+Proof. exact clean_deleted_entry. Qed.
+Print Assumptions C15_deleted_entry_clean.
 
 Theorem C15_reload_clean : forall sv, CleanState sv -> CleanState (reload sv).
 Proof. exact clean_reload. Qed.
